@@ -9,7 +9,7 @@ from ..core import to_tla, MachineryError
 from ..pgm import Domain, Dataset
 
 SZ = {"a": 2, "b": 3, "c": 1, "d": 2}
-DOM_INVS = ["MergeSizeLaw", "MergeSetLaw", "ComplementLaw", "CanonicalLaw", "EmptyLaw", "SortLaw", "AxesLaw"]
+DOM_INVS = ["MergeSizeLaw", "MergeSetLaw", "ComplementLaw", "CanonicalLaw", "ForeignLaw", "EmptyLaw", "SortLaw", "AxesLaw"]
 
 
 def dom(layout):
@@ -43,6 +43,10 @@ def check_domain(ctx, e):
         mg = d1.merge(d2)
         if attrs(mg) != e["merge"] or not shape_ok(mg): bad.append("merge -> %s, spec %s" % (mg, e["merge"]))
         if list(d1.canonical(e["d2"])) != e["canonical_any"]: bad.append("canonical(d2 attrs) -> %s" % (d1.canonical(e["d2"]),))
+        for spelled2 in (list(e["d2"]), tuple(e["d2"])):
+            if list(d1.invert(spelled2)) != e["invert_any"]: bad.append("invert(%r) -> %s, spec %s" % (spelled2, d1.invert(spelled2), e["invert_any"]))
+            mg2 = d1.marginalize(spelled2)
+            if attrs(mg2) != e["marginalize_any"] or not shape_ok(mg2): bad.append("marginalize(%r) -> %s, spec %s" % (spelled2, mg2, e["marginalize_any"]))
         # the library itself passes concatenated cliques (attributes named twice): canonical is a function of the SET
         rep = tuple(e["d2"]) + tuple(e["d2"][:1]) + tuple(a for a in e["d1"] if a in e["d2"])
         if list(d1.canonical(rep)) != e["canonical_any"]: bad.append("canonical(%r) -> %s, spec %s" % (rep, d1.canonical(rep), e["canonical_any"]))
